@@ -410,29 +410,7 @@ def solve_serialized(arg):
             deadline_s = min(deadline_s or 8.0, 8.0)
     except ValueError:
         pass
-    # z3's sequence solver sometimes ignores its own timeout (a model with a very long string to construct: minutes of CPU, gigabytes):
-    # a watchdog thread interrupts the solver once the obligation's deadline is well past and, if that does not help either, ends this
-    # worker process - the parent reports the queries it had as undecided
-    import threading
-    limit = float(deadline_s or os.environ.get('PYVC_DEADLINE_S', '60'))
-    t_begin = time.time()
-    done = threading.Event()
-
-    def _watch():
-        while not done.wait(5.0):
-            over = time.time() - t_begin - limit
-            if over > 150:
-                os._exit(17)
-            if over > 45:
-                try:
-                    z3.main_ctx().interrupt()
-                except Exception:
-                    pass
-    threading.Thread(target=_watch, daemon=True).start()
-    try:
-        return _solve_serialized(q, timeout_ms, deadline_s)
-    finally:
-        done.set()
+    return _solve_serialized(q, timeout_ms, deadline_s)
 
 
 def _solve_serialized(q, timeout_ms, deadline_s):
@@ -631,14 +609,31 @@ def prove_function(world, make_models, contract, timeout_ms=None, arg_terms_out=
             nfirst = min(len(hard), 2 * inner_jobs)
 
             def gather(args):
-                # a worker that had to end itself (watchdog) breaks the pool: what it had, and what was still queued, is undecided
+                # z3's sequence solver sometimes ignores its own timeout and the deadline (a model with a very long string to build:
+                # minutes of CPU, gigabytes).  The parent watches: when NO query has finished for the deadline plus 150 s, the workers
+                # that are left are stuck - they are killed and what they held is undecided.  (Done from the parent, not by a thread
+                # inside the worker: Python's collector running on a second thread would release z3 terms during a solver call.)
+                stall = float(os.environ.get('PYVC_DEADLINE_S', '60')) + 150.0
                 futs = [ex.submit(solve_serialized, a) for a in args]
+                pending = set(futs)
+                last = time.time()
+                while pending:
+                    done_, pending = cf.wait(pending, timeout=5.0, return_when=cf.FIRST_COMPLETED)
+                    if done_:
+                        last = time.time()
+                    elif time.time() - last > stall:
+                        for pr in list(getattr(ex, '_processes', {}).values()):
+                            try:
+                                pr.kill()
+                            except Exception:
+                                pass
+                        break
                 out = []
                 for f_ in futs:
                     try:
-                        out.append(f_.result())
+                        out.append(f_.result(timeout=30) if f_.done() else ('undecided', 'solver worker stuck', 0.0, None, 'worker killed after ignoring its deadline'))
                     except Exception as e_:
-                        out.append(('undecided', 'solver worker ended (%s)' % type(e_).__name__, 0.0, None, 'worker ended by the watchdog'))
+                        out.append(('undecided', 'solver worker ended (%s)' % type(e_).__name__, 0.0, None, 'worker ended'))
                 return out
             first = gather([(p, timeout_ms) for p in payload[:nfirst]])
             slow = sum(1 for r in first if r[0] == 'undecided')
